@@ -125,7 +125,7 @@ func main() {
 		Plan: func(tier string, seed int64) []kit.Batch {
 			nb, n, reqs := 16, 30, 150
 			if tier == "thorough" {
-				nb, n, reqs = 48, 500, 300
+				nb, n, reqs = 48, 1000, 300
 			}
 			var bs []kit.Batch
 			for i := 0; i < nb; i++ {
